@@ -629,6 +629,66 @@ theorem C05_reopen (H : Bytes → Bytes) (hH : ∀ b, (H b).length = 32) (S : Na
   show Except.ok (w', List.filter (fun r => decide (r.seq > w.ckseq)) (s.old ++ s.pend)) = _
   rw [hinv.ckseq, filter_old_pend _ _ _ hinv.oseq (pend_gt _ _ hinv.pseq)]
 
+/-- **C05_grow** — growing the region (`grow_wal_region`: the file is shifted so that the region
+    becomes the old bytes followed by `d` zero bytes, `wal_size := S + d`, then `EmbeddedWal::open`
+    with the unchanged header fields): the scan of the grown region returns the same records and the
+    same next head as before, the open succeeds with identical cursors, `pending_records` reports the
+    same pending records, and the grown state satisfies the invariant for region size `S + d`
+    (so every theorem above continues to hold for any further history on the grown region). -/
+theorem C05_grow (H : Bytes → Bytes) (hH : ∀ b, (H b).length = 32) (S : Nat) (ops : List Op)
+    (hwf : ∀ op ∈ ops, op.wf) (hlen : ops.length < 2^64) (d : Nat) :
+    let w := run H (init S) ops
+    let s := Spec.run S Spec.init ops
+    let wg : Wal := { w with S := S + d, region := w.region ++ zeros d,
+                             ckh := w.ckh % (S + d), appends := 0 }
+    scan H (S + d) (w.region ++ zeros d) = scan H S w.region ∧
+    scan H S w.region = .ok (s.old ++ s.pend, w.wh) ∧
+    openFromHeader H (S + d) (w.region ++ zeros d) w.ckseq w.ckh false = .ok wg ∧
+    pendingRecords H wg = .ok (wg, s.pend) ∧
+    Inv H (S + d) wg s ∧
+    (∀ ops2 : List Op, (∀ op ∈ ops2, op.wf) → ops.length + ops2.length < 2^64 →
+      Inv H (S + d) (run H wg ops2) (Spec.run (S + d) s ops2)) := by
+  intro w s wg
+  have hinv : Inv H S w s := C05_inv H hH S ops hwf hlen
+  have Lg := Layout.grow H S w.region _ hinv.layout d
+  have hsc := scan_exact H hH S _ _ hinv.layout
+  have hig : Inv H (S + d) wg s :=
+    ⟨rfl, Lg, hinv.wh, hinv.ro, hinv.pend, hinv.seq, hinv.ckseq, hinv.pseq, hinv.oseq, hinv.last,
+      hinv.bound⟩
+  refine ⟨by rw [scan_exact H hH _ _ _ Lg, hsc], by rw [hsc, hinv.wh], ?_,
+    pendingRecords_inv H hH _ wg s hig, hig, ?_⟩
+  · have hro := hinv.ro
+    have e := open_of_layout H hH
+      { w with S := S + d, region := w.region ++ zeros d } (s.old ++ s.pend) Lg hinv.wh hinv.last
+      (by
+        intro hnil
+        have : s.pend = [] := (List.append_eq_nil_iff.mp hnil).2
+        show w.seq = w.ckseq
+        rw [hinv.seq, hinv.ckseq, this]; rfl)
+      hinv.pendingSize w.ckh false
+    rw [e]
+    show Except.ok ({ w with S := S + d, region := w.region ++ zeros d, ckh := w.ckh % (S + d),
+      appends := 0, ro := false } : Wal) = Except.ok wg
+    rw [← hro]
+  · intro ops2 hwf2 hl2
+    have hsb : s.seq ≤ ops.length := by
+      have : ∀ (ops : List Op) (s0 : Spec), (Spec.run S s0 ops).seq ≤ s0.seq + ops.length := by
+        intro ops
+        induction ops with
+        | nil => intro s0; exact Nat.le_refl _
+        | cons o os ih =>
+          intro s0
+          have h1 := ih (s0.step S o)
+          have h2 := Spec.seq_step S s0 o
+          simp only [List.length_cons]
+          show (Spec.run S (s0.step S o) os).seq ≤ _
+          omega
+      have h := this ops Spec.init
+      have h0 : Spec.init.seq = 0 := rfl
+      show (Spec.run S Spec.init ops).seq ≤ ops.length
+      omega
+    exact inv_run H hH (S + d) ops2 wg s hig hwf2 (by omega)
+
 /-- **C05_no_resurrect** — records from before the last checkpoint that are still physically in
     the region (`old`, which the scan does return) are never reported as pending: every reported
     record has `seq > checkpoint_sequence`, every old one has `seq ≤ checkpoint_sequence`. -/
@@ -758,6 +818,11 @@ example : (∀ op ∈ demoOps, op.wf) ∧ demoOps.length < 2^64 ∧ ∀ b, (toyH
 /-- the main theorems instantiate on it -/
 example := C05_refines toyH toyH_length 160 demoOps (by decide) (by decide)
 example := C05_reopen toyH toyH_length 160 demoOps (by decide) (by decide) false
+example := C05_grow toyH toyH_length 160 demoOps (by decide) (by decide) 160
+/-- growth at a write head closer than 48 bytes to the region end (S = 100, wh = 58): same scan -/
+example : (okOf (append toyH (init 100) p10)).map
+      (fun x => okOf (scan toyH 200 (x.1.region ++ zeros 100)))
+    = some (some ([{ seq := 1, payload := p10 }], 58)) := by decide +kernel
 
 /-- the history exercises: acceptance ×2, checkpoint, wrap to offset 0 (68+68+78 > 160),
     refusal ("full": wrapping with pending records), reopen -/
